@@ -1,5 +1,6 @@
 import RscelModel.Lemmas.LexLit
 import RscelModel.Lemmas.ParseLit
+import RscelModel.Lemmas.LexFloat
 /-
 C13 — literals denote exactly the value they spell; out-of-range ones are rejected.
 
@@ -807,6 +808,50 @@ theorem bytes_eval (q : Char) (hq : isQuote q) (items : List BItem) (hl : ∀ i 
     evalSrc B env ('b' :: q :: bencode items ++ [q]) = .value (.bytes (bvalue items)) :=
   eval_single B env _ _ _ _ (.bytes _ _) _ (bytes_roundtrip q hq items hl [] ⟨0, 0⟩) rfl rfl
 
+/-! ### doubles
+
+The lexeme of a double is exactly `digits [. digits] [(e|E) [+|-] digits]` (or `. digits [exponent]`), and
+its value is `F.ofDecimal m e`: the model's exact, big-integer conversion of the decimal number
+`m * 10^e` the text spells (`m`: all mantissa digits, `e`: the exponent minus the number of fraction
+digits).  That `F.ofDecimal` rounds correctly (nearest, ties to even — Rust's `str::parse::<f64>`) is
+checked by the harness with exact arithmetic on every generated double and on midpoint cases. -/
+
+open LexFloat in
+/-- Integer digits first. -/
+theorem double_eval (c : Char) (ds : List Char) (fp : Option (List Char)) (ex : Option ExpPart)
+    (hc : isDigit c = true) (hds : ∀ x ∈ ds, isDigit x = true)
+    (hfp : ∀ f, fp = some f → ∀ x ∈ f, isDigit x = true) (hex : expOk ex)
+    (hfloat : fp.isSome = true ∨ ex.isSome = true) :
+    evalSrc B env (c :: afterFirst ds fp ex) =
+      .value (.float (F.ofDecimal (digitsVal (c :: ds ++ fp.getD [])) (expVal ex - ((fp.getD []).length : Int)))) := by
+  have ht := float_token_digit c ds fp ex [] ⟨0, 0⟩ hc hds hfp hex ⟨trivial, by intro _ _ c h; simp at h⟩ hfloat
+  rw [List.append_nil] at ht
+  exact eval_single B env _ _ _ _ _ _ ht rfl rfl
+
+open LexFloat in
+/-- Leading dot. -/
+theorem double_dot_eval (d : Char) (fp : List Char) (ex : Option ExpPart)
+    (hd : isDigit d = true) (hfp : ∀ x ∈ fp, isDigit x = true) (hex : expOk ex) :
+    evalSrc B env ('.' :: d :: fp ++ expText ex) =
+      .value (.float (F.ofDecimal (digitsVal (d :: fp)) (expVal ex - (((d :: fp).length : Nat) : Int)))) := by
+  have ht := float_token_dot d fp ex [] ⟨0, 0⟩ hd hfp hex trivial
+  rw [List.append_nil] at ht
+  exact eval_single B env _ _ _ _ _ _ ht rfl rfl
+
+open LexFloat in
+/-- A minus in front flips the sign bit (`-0.0` included). -/
+theorem double_neg_eval (c : Char) (ds : List Char) (fp : Option (List Char)) (ex : Option ExpPart)
+    (hc : isDigit c = true) (hds : ∀ x ∈ ds, isDigit x = true)
+    (hfp : ∀ f, fp = some f → ∀ x ∈ f, isDigit x = true) (hex : expOk ex)
+    (hfloat : fp.isSome = true ∨ ex.isSome = true) :
+    evalSrc B env ('-' :: c :: afterFirst ds fp ex) =
+      .value (.float (F.neg (F.ofDecimal (digitsVal (c :: ds ++ fp.getD [])) (expVal ex - ((fp.getD []).length : Int))))) := by
+  have ht := float_token_digit c ds fp ex [] ⟨0, 1⟩ hc hds hfp hex ⟨trivial, by intro _ _ c h; simp at h⟩ hfloat
+  rw [List.append_nil] at ht
+  unfold evalSrc
+  rw [parse_neg_single _ _ _ _ _ ht rfl]
+  simp only [compile_neg_float, exec_neg_float]
+
 /-- `true`, `false`, `null`. -/
 theorem bool_null :
     evalSrc B env "true".toList = .value (.bool true) ∧ evalSrc B env "false".toList = .value (.bool false) ∧
@@ -816,6 +861,92 @@ theorem bool_null :
    eval_single B env _ .null ⟨⟨0, 0⟩, ⟨0, 4⟩⟩ ⟨0, 4⟩ (.null _) _ rfl rfl rfl⟩
 
 end
+
+/-! ### Non-vacuity: the hypotheses are satisfiable, and instances agree with direct computation -/
+
+section examples
+open LexFloat
+variable (B : Builtins) (env : Env)
+
+-- what may follow a number
+example : numStop 10 " + 1".toList ∧ numStop 16 ")".toList ∧ numStop 10 [] := by
+  refine ⟨?_, ?_, trivial⟩ <;> simp [numStop, numChar, isDigit, hexDigitVal] <;> decide
+
+-- dec_spelling_token / dec_u_spelling_token / hex_spelling_token / hex_u_spelling_token
+example : lexToken ⟨"007 + 1".toList, ⟨0, 0⟩⟩ =
+    .ok (some (.intLit 7, ⟨⟨0, 0⟩, ⟨0, 3⟩⟩), ⟨" + 1".toList, ⟨0, 3⟩⟩) := rfl
+example : lexToken ⟨"18446744073709551615Ux".toList, ⟨0, 0⟩⟩ =
+    .ok (some (.uintLit 18446744073709551615, ⟨⟨0, 0⟩, ⟨0, 21⟩⟩), ⟨"x".toList, ⟨0, 21⟩⟩) := rfl
+example : lexToken ⟨"18446744073709551616".toList, ⟨0, 0⟩⟩ = .error ⟨⟨0, 20⟩⟩ := rfl
+example : ∀ c ∈ "0fFaA9".toList, (hexDigitVal c).isSome = true := by decide
+
+-- int_dec_roundtrip, int_hex_roundtrip, uint_roundtrip, int_neg_roundtrip and the rejections, at the limits
+example : evalSrc B env "9223372036854775807".toList = .value (.int 9223372036854775807) :=
+  int_dec_roundtrip B env 9223372036854775807 (by decide)
+example : evalSrc B env "0X7fffFFFFffffffff".toList = .value (.int 9223372036854775807) := by
+  have h := int_hex_roundtrip B env 9223372036854775807 (by decide) 'X' (Or.inr rfl)
+    (fun n => decide (0x7ffff ≤ n ∧ n ≤ 0x7fffffff))
+  have e : ('0' :: 'X' :: hexOf (fun n => decide (0x7ffff ≤ n ∧ n ≤ 0x7fffffff)) 9223372036854775807) =
+      "0X7fffFFFFffffffff".toList := by decide
+  rw [e] at h; exact h
+example : evalSrc B env "18446744073709551615u".toList = .value (.uint 18446744073709551615) :=
+  (uint_roundtrip B env 18446744073709551615 (by decide) 'u' (Or.inl rfl)).1
+example : evalSrc B env "-9223372036854775808".toList = .value (.int (-9223372036854775808)) :=
+  int_neg_roundtrip B env 9223372036854775808 (by decide)
+example : evalSrc B env "9223372036854775808".toList = .syntaxError :=
+  int_out_of_range_rejected B env 9223372036854775808 (by decide)
+example : evalSrc B env "18446744073709551616u".toList = .syntaxError :=
+  uint_out_of_range_rejected B env 18446744073709551616 (by decide) 'u' (Or.inl rfl)
+example : evalSrc B env "-9223372036854775809".toList = .syntaxError :=
+  neg_out_of_range_rejected B env 9223372036854775809 (by decide)
+
+-- strings: one element per spelling
+def sampleItems : List (Esc × Char) :=
+  [(.plain, 'a'), (.named, '\n'), (.hex2 false (fun _ => true), 'é'), (.octal, 'A'),
+   (.u4 (fun i => i % 2 == 0), '€'), (.u8 (fun _ => false), '😀'), (.named, '"'), (.plain, '\'')]
+
+theorem sampleItems_legal : ∀ p ∈ sampleItems, Legal false '"' p.1 p.2 := by
+  intro p hp
+  simp [sampleItems] at hp
+  rcases hp with rfl|rfl|rfl|rfl|rfl|rfl|rfl|rfl <;> simp [Legal, nameOf] <;> decide
+
+example : encode sampleItems = "a\\n\\xE9\\101\\u20aC\\U0001f600\\\"'".toList := by decide
+example : valueOf sampleItems = "a\néA€😀\"'".toList := by decide
+example : evalSrc B env ('"' :: encode sampleItems ++ ['"']) = .value (.str (valueOf sampleItems)) :=
+  string_eval B env '"' (Or.inr rfl) sampleItems sampleItems_legal
+example : Legal true '\'' .brace '{' ∧ Legal true '\'' .plain 'x' := by simp [Legal]
+example : ('"' : Char) ∉ "a\\b'c".toList := by decide
+
+-- rejected: a surrogate, a value above 0x10FFFF, a truncated and a malformed escape
+example : ¬ (spelled 16 "d800".toList).isValidChar ∧ ¬ (spelled 16 "00110000".toList).isValidChar := by decide
+example : lexToken ⟨"'\\ud800'".toList, ⟨0, 0⟩⟩ = .error ⟨⟨0, 7⟩⟩ := rfl
+example : lexToken ⟨"'\\x4'".toList, ⟨0, 0⟩⟩ = .error ⟨⟨0, 5⟩⟩ := rfl
+example : (isOct '1' && isOct '8' && isOct '0') = false := by decide
+example : lexToken ⟨"'\\180'".toList, ⟨0, 0⟩⟩ = .error ⟨⟨0, 5⟩⟩ := rfl
+
+-- bytes
+def sampleBytes : List BItem :=
+  [.byte .named 10, .byte (.hex2 true (fun _ => false)) 255, .byte .octal 200, .char 'z', .char 'é']
+
+theorem sampleBytes_legal : ∀ i ∈ sampleBytes, i.Legal '\'' := by
+  intro i hi
+  simp [sampleBytes] at hi
+  rcases hi with rfl|rfl|rfl|rfl|rfl <;> simp [BItem.Legal, byteNameOf] <;> decide
+
+example : bencode sampleBytes = "\\n\\Xff\\310zé".toList := by decide
+example : evalSrc B env ('b' :: '\'' :: bencode sampleBytes ++ ['\'']) = .value (.bytes (bvalue sampleBytes)) :=
+  bytes_eval B env '\'' (Or.inl rfl) sampleBytes sampleBytes_legal
+example : lexToken ⟨"b'\\400'".toList, ⟨0, 0⟩⟩ = .error ⟨⟨0, 6⟩⟩ := rfl
+
+-- doubles: 12.50e-3, .5, 7e2
+def sampleExp : ExpPart := ⟨'e', some '-', ['3']⟩
+example : expOk (some sampleExp) := ⟨Or.inl rfl, by intro s h; injection h with h; subst h; exact Or.inr rfl, by decide, by decide⟩
+example : '1' :: afterFirst ['2'] (some ['5', '0']) (some sampleExp) = "12.50e-3".toList := by decide
+example : evalSrc B env "12.50e-3".toList = .value (.float (F.ofDecimal 1250 (-5))) :=
+  double_eval B env '1' ['2'] (some ['5', '0']) (some sampleExp) rfl (by decide) (by intro f h; injection h with h; subst h; decide)
+    ⟨Or.inl rfl, by intro s h; injection h with h; subst h; exact Or.inr rfl, by decide, by decide⟩ (Or.inl rfl)
+
+end examples
 
 end C13
 end Rscel
